@@ -21,9 +21,13 @@ CLAIMED = {
         "success <=> SciPy info 0 without abort, abs_error is the residual of the returned field, "
         "an abort is always a failure. Tie to code: recorded residual norms / SciPy events of real "
         "solves over the configuration product drive the model; exit, message, it_mg, it_ssl, "
-        "abs_error must agree. Numeric half (partial, monitored not proved): residual of the "
-        "returned/in-place field recomputed with an independent sparse FIT assembly (cross-checked "
-        "against the Lean spec), PEC, dtype, in-place semantics.",
+        "abs_error must agree. Clause PEC, plain multigrid: proved on the whole-cycle model "
+        "(Emg.mgRun_frame / mgRun_pec: for every configuration, grid, model, source and start "
+        "field the call returns the same level and never writes an edge outside the interior, so "
+        "a PEC start field gives a PEC result; every coarse field is PEC). Numeric half (partial, "
+        "monitored not proved): residual of the returned/in-place field recomputed with an "
+        "independent sparse FIT assembly (cross-checked against the Lean spec), PEC on the Krylov "
+        "path, dtype, in-place semantics.",
    design='§4 C01',
    note=TB % 'c01' + "Modelled not verified: what a cycle / a Krylov step does to the field "
         "(oracle), SciPy's solvers (event model), floating-point norm. Known finding: Krylov with "
